@@ -15,6 +15,8 @@ def behOf? (s : String) : Option Beh :=
   | ["shift", d] => d.toNat?.map .shift
   | ["forged", _] => some .forged
   | ["panickyverify", _] => some .forged
+  | ["forgedabove", _] => some .forged     -- (honest below the threshold: the trace check allows either reading, see replay)
+  | ["invalidlast"] => some .forged
   | ["panicky", _] => some .forged       -- a response the client cannot accept (its processing panics and is recovered)
   | _ => none
 
@@ -23,7 +25,13 @@ def traceEv? (s : String) : Option (Nat × Req × Beh) :=
   match s.splitOn ":" with
   | p :: oa :: rest =>
     match oa.splitOn "+" with
-    | [o, a] => do pure (← p.toNat?, { origin := ← o.toNat?, amount := ← a.toNat? }, ← behOf? (":".intercalate rest))
+    | [o, a] => do
+      let origin ← o.toNat?
+      -- `forgedabove:k` forges only chunks that start above k; below, the peer is honest
+      let beh ← match rest with
+        | ["forgedabove", k] => k.toNat?.map fun k => if origin > k then Beh.forged else Beh.honest
+        | _ => behOf? (":".intercalate rest)
+      pure (← p.toNat?, { origin := origin, amount := ← a.toNat? }, beh)
     | _ => none
   | _ => none
 
